@@ -7,7 +7,7 @@ use serde_json::{json, Value};
 pub const DEF: PropDef = PropDef {
     id: "C12",
     level: "exploration",
-    rule: "complete enumeration of all strings up to the length bound over a 20-symbol alphabet tuned to position bookkeeping (quotes, parentheses, LF, CR, apostrophe, the letters of 's / 're / 'n', a 2-byte letter, digit, dot, underscore, space, NBSP, ignorable punctuation) plus all glued/spaced sequences of multi-line strings, comments, suffixes, words, numbers and newlines; plus the same pieces after prefixes that push the line or column to 254..257 and 65535..65536 (newlines, spaces, a comment of that many lines, a long string); plus 41 Unicode class representatives alone and in all pairs in 20 lexical positions (lexemes::unicode_texts); every token of the real lexer is checked structurally against the source; non-trivial = at least 2 tokens, or a token spanning a line break, or a suffix token; distinct = distinct text",
+    rule: "complete enumeration of all strings up to the length bound over a 20-symbol alphabet tuned to position bookkeeping (quotes, parentheses, LF, CR, apostrophe, the letters of 's / 're / 'n', a 2-byte letter, digit, dot, underscore, space, NBSP, ignorable punctuation) plus all glued/spaced sequences of multi-line strings, comments, suffixes, words, numbers and newlines; plus the same pieces after prefixes that push the line or column to 254..257 and 65535..65536 (newlines, spaces, a comment of that many lines, a long string); plus all strings of length <=3 over every printable ASCII character and tab / CR / LF; plus 41 Unicode class representatives alone and in all pairs in 20 lexical positions (lexemes::unicode_texts); every token of the real lexer is checked structurally against the source; non-trivial = at least 2 tokens, or a token spanning a line break, or a suffix token; distinct = distinct text",
     assumptions: &[
         "the oracle is structural (slices, gaps, line/column arithmetic recomputed from the source), it does not know which alias maps to which keyword (C02's business)",
         "tokens whose spelling ends in a line break are exempt from the end-position rule, as the property states",
@@ -51,7 +51,7 @@ fn build(tier: Tier) -> Box<dyn Check> {
         };
         format!("{}{}", prefix, t)
     });
-    Box::new(C12 { fams: vec![("chars".into(), chars), ("pieces".into(), seqs), ("far-positions".into(), far), ("unicode-classes".into(), Space::of(super::lexemes::unicode_texts())), ("long-multibyte-tokens".into(), Space::of(super::lexemes::long_multibyte_texts()))] })
+    Box::new(C12 { fams: vec![("chars".into(), chars), ("pieces".into(), seqs), ("far-positions".into(), far), ("unicode-classes".into(), Space::of(super::lexemes::unicode_texts())), ("long-multibyte-tokens".into(), Space::of(super::lexemes::long_multibyte_texts())), ("all-ascii <=3".into(), super::lexemes::all_ascii(3))] })
 }
 
 fn gap_ok(gap: &str) -> Result<(), char> {
@@ -83,7 +83,7 @@ fn id_consistent(tok: &Token) -> Result<(), String> {
         TokenType::Newline => sp == "\n",
         TokenType::ApostropheS => sp.eq_ignore_ascii_case("'s"),
         TokenType::ApostropheRE => sp.eq_ignore_ascii_case("'re"),
-        TokenType::ApostropheNApostrophe => sp == "'n'",
+        TokenType::ApostropheNApostrophe => sp.eq_ignore_ascii_case("'n'"),
         TokenType::Comma => sp == ",",
         TokenType::Dot => sp == ".",
         TokenType::Ampersand => sp == "&",
